@@ -1,10 +1,84 @@
 import TempestVerif.Drv.Util
-/- line-protocol handlers of property C20 (stub: no commands yet) -/
+import TempestVerif.Model.Ess
+import TempestVerif.Model.Trim
+/- line-protocol handlers of property C20 (ESS, percentile/linspace mirrors, weight trimming) -/
 namespace Drv.C20
-open Drv
+open Drv Model.Ess Model.Trim
+
+def getList (α : Type) [Codec α] (args : List (String × String)) (k : String) : Option (List α) :=
+  (getArg args k).bind (parseList? (Codec.parse (α := α)))
+
+def getNat (args : List (String × String)) (k : String) : Option Nat :=
+  (getArg args k).bind String.toNat?
+
+/-- `ess w=<scalars>` → `<ess>` -/
+def essCmd (α : Type) [Sc α] [Codec α] (args : List (String × String)) : String :=
+  match getList α args "w" with
+  | some w => Codec.shw (ess w)
+  | none => "bad-op"
+
+/-- `cess logw=<scalars>` → `<compute_ess>` | `none` -/
+def cessCmd (args : List (String × String)) : String :=
+  match getList Float args "logw" with
+  | some l => match computeEss l with
+    | some v => showFloat v
+    | none => "none"
+  | none => "bad-op"
+
+/-- `pct w=<scalars> p=<scalar>` → `np.percentile(w, p)` | `none` -/
+def pctCmd (α : Type) [Sc α] [Codec α] (args : List (String × String)) : String :=
+  match getList α args "w", (getArg args "p").bind (Codec.parse (α := α)) with
+  | some w, some p => match percentileLinear (sortAsc w) p with
+    | some v => Codec.shw v
+    | none => "none"
+  | _, _ => "bad-op"
+
+/-- `lin bins=<nat>` → the whole grid `np.linspace(0, 99, bins)` -/
+def linCmd (α : Type) [Sc α] [Codec α] (args : List (String × String)) : String :=
+  match getNat args "bins" with
+  | some bins => showList Codec.shw ((List.range bins).map fun i => (linspace0_99 bins i : α))
+  | none => "bad-op"
+
+def maskIdx (m : List Bool) : List Nat := filterMask (List.range m.length) m
+
+/-- largest ratio among the rejected passes `stop < i < bins` (the one closest to the acceptance level) -/
+def maxRejected {α : Type} [Sc α] (wn sorted : List α) (essTotal : α) (bins stop : Nat) : Option α :=
+  ((List.range bins).filter (fun i => stop < i)).foldl (fun acc i =>
+    match step wn sorted essTotal (linspace0_99 bins i) with
+    | none => acc
+    | some s => match acc with
+      | none => some s.ratio
+      | some r => some (Sc.max r s.ratio)) none
+
+/-- `trim w=<scalars> ess=<scalar> bins=<nat>` →
+    `<stop index> <threshold> <kept indices> <kept weights> <ratio at stop> <max rejected ratio | ->` | `none`.
+    Samples are the indices `0..n-1`; they are pushed through `trim` itself so that alignment is observable. -/
+def trimCmd (α : Type) [Sc α] [Codec α] (args : List (String × String)) : String :=
+  match getList α args "w", (getArg args "ess").bind (Codec.parse (α := α)), getNat args "bins" with
+  | some w, some e, some bins =>
+    match trimStop w e bins, trim (List.range w.length) w e bins with
+    | some (i, s), some (idx, wt) =>
+      let wn := normalise w
+      let essTotal := Sc.div Sc.one (sumSq wn)
+      let rej := match maxRejected wn (sortAsc wn) essTotal bins i with
+        | some r => Codec.shw r
+        | none => "-"
+      let same := if idx == maskIdx s.mask then "" else " MASK-MISMATCH"
+      s!"{i} {Codec.shw s.thr} {showList toString idx} {showList Codec.shw wt} {Codec.shw s.ratio} {rej}{same}"
+    | _, _ => "none"
+  | _, _, _ => "bad-op"
 
 def handle (cmd : String) (args : List (String × String)) : Option String :=
   match cmd with
+  | "ess.F" => some (essCmd Float args)
+  | "ess.Q" => some (essCmd Rat args)
+  | "cess.F" => some (cessCmd args)
+  | "pct.F" => some (pctCmd Float args)
+  | "pct.Q" => some (pctCmd Rat args)
+  | "lin.F" => some (linCmd Float args)
+  | "lin.Q" => some (linCmd Rat args)
+  | "trim.F" => some (trimCmd Float args)
+  | "trim.Q" => some (trimCmd Rat args)
   | _ => none
 
 end Drv.C20
